@@ -143,7 +143,7 @@ class World:
         self.p.add(zbool(cond))
 
     def cut(self, reason):
-        raise Cut(reason)
+        raise Cut("harness: " + reason)
 
     def tape(self):
         return {"values": [], "done": False}
